@@ -102,6 +102,9 @@ def correspondence(scn, res, projections):
                 dis.append((ci, "observer-events", " ".join(x)[:400], " ".join(y)[:400]))
         if "io" in projections:
             x, y = P.proj_io(ev), P.proj_io(b["ev"])
+            if scn["calls"][ci][0] == "F":      # the listing's sink is the library's own string stream
+                x = [t for t in x if not t.startswith("SW") and t != "sf"]
+                y = [t for t in y if not t.startswith("SW") and t != "sf"]
             if x != y:
                 dis.append((ci, "callback/sink-events", " ".join(x)[:400], " ".join(y)[:400]))
     if "wire" in projections:
@@ -149,6 +152,11 @@ def oracle_lockstep(scn, res):
         got = returned_marks(a["out"])
         if got != want:
             kind = "lockstep/replies-of-another-command" if set(got) - set(want) else "lockstep/reply-left-unread-or-dropped"
+            shape = scn.get("abor_shape")
+            if e.get("cancelled") and shape in ("already-complete", "abor-refused") and got == want[:-1]:
+                codes = [r[1] for r in e["replies"]]
+                if b"ABOR" in e["cmds"] and 426 not in codes[:-1][-1:]:
+                    kind = "abor/first-reply-not-426/" + ("transfer-already-complete" if shape == "already-complete" else "abor-refused")
             v.append((ci, kind, "call %d (%s) returned marks %s, its own commands were answered with %s" % (
                 ci, e["kind"], [bytes.fromhex(x).decode() for x in got], [bytes.fromhex(x).decode() for x in want])))
             break
@@ -273,7 +281,7 @@ def oracle_transfers(scn, res):
         if e["kind"] not in ("D", "U", "F"):
             continue
         ev = a["ev"]
-        io = [t for t in ev if re.fullmatch(r"p[01]|b|e|sf|n\d+|sw:.*|sr\d+:\d+", t)]
+        io = [t for t in ev if re.fullmatch(r"p[01]|b|e|sf|n\d+|sw[:#].*|sr\d+:\d+", t)]
         if e.get("refused"):
             moved = [t for t in io if not re.fullmatch(r"p[01]", t)]
             if moved:
@@ -287,11 +295,16 @@ def oracle_transfers(scn, res):
             continue
         call = scn["calls"][ci]
         cb = call[2] if e["kind"] == "D" else (call[4] if e["kind"] == "U" else None)
-        sunk = b"".join(bytes.fromhex(t[3:]) for t in io if t.startswith("sw:") and t != "sw:-")
+        sw = [P.sw_len_hash(t) for t in io if t.startswith("sw")]
+        sunk_len = sum(n for n, _ in sw)
+        sunk_hash = 0
+        for n, h in sw:
+            sunk_hash = (sunk_hash * pow(P.HB, n, P.HM) + h) % P.HM
+        sunk = sunk_len > 0
         typ = scn["cfg_type_at"].get(ci, "I")
         if e["kind"] == "D" and not e.get("cancelled") and typ == "I":
-            if sunk != e["payload"]:
-                v.append((ci, "download/sink-differs-from-payload", "sink got %d bytes, peer sent %d" % (len(sunk), len(e["payload"]))))
+            if (sunk_len, sunk_hash) != (len(e["payload"]), P.poly_hash(e["payload"])):
+                v.append((ci, "download/sink-differs-from-payload", "sink got %d bytes, peer sent %d" % (sunk_len, len(e["payload"]))))
             if [t for t in io if t in ("sf",)] != ["sf"] or (io and [t for t in io if t.startswith("sw") or t == "sf"][-1] != "sf"):
                 v.append((ci, "download/flush-not-once-at-the-end", " ".join(t[:8] for t in io[-6:])))
         if e["kind"] == "F" and typ == "I" and not a["out"].startswith("throw"):
@@ -320,7 +333,7 @@ def oracle_transfers(scn, res):
                 # no block after the first 'cancelled' answer
                 if "p1" in polls:
                     k = io.index("p1")
-                    after = [t for t in io[k + 1:] if re.fullmatch(r"n\d+", t) or t.startswith("sw:")]
+                    after = [t for t in io[k + 1:] if re.fullmatch(r"n\d+", t) or t.startswith("sw")]
                     if after and not (after == ["sw:0d"]):
                         v.append((ci, "callback/block-moved-after-cancellation", " ".join(t[:10] for t in after[:4])))
             moved = sum(notes)
@@ -328,9 +341,8 @@ def oracle_transfers(scn, res):
                 v.append((ci, "callback/notify-sum-differs-from-bytes-moved", "%d vs %d" % (moved, len(e["payload"]))))
         if e["kind"] == "U":
             si, ri = scn["xfer_map"].get(ci, (None, None))
-            recs = [d for d in res["peer"][si]["data"] if d["kind"] == "recv"] if si is not None else []
-            k = sum(1 for c2 in range(ci) if scn["exp"][c2]["kind"] == "U" and scn["exp"][c2].get("moves_data")
-                    and scn["xfer_map"].get(c2, (None,))[0] == si)
+            recs = [d for d in res["peer"][si]["data"] if d["kind"] == "recv" and d.get("ri") == ri] if si is not None else []
+            k = 0
             if k < len(recs):
                 rec = recs[k]
                 if typ == "I" and not e.get("cancelled") and rec["bytes"] != e["source"]:
@@ -447,24 +459,278 @@ def gen_mixed(rng, tier, dist, n, tls=False, observers=True, refusals=True, canc
     return out
 
 
+# ---------------------------------------------------------------------------------------------- targeted families
+ALL_METHODS = [("P", True), ("P", False), ("A", True), ("A", False)]
+
+
+def fam_observers(rng, n, dist):
+    """add / remove histories of several observers, including double registration (std::list::remove drops all)"""
+    out = []
+    for i in range(n):
+        b = S.Builder(rng, *rng.choice(ALL_METHODS))
+        pool = [1, 2, 3]
+        for _ in range(rng.randrange(0, 3)):
+            b.add_observer(rng.choice(pool))
+        b.connect(login=(b"u", b"p") if rng.random() < 0.5 else None, greeting=rng.choice([(220,), (120, 220)]))
+        for _ in range(rng.randrange(2, 9)):
+            r = rng.random()
+            if r < 0.3:
+                b.add_observer(rng.choice(pool))
+                dist.add("observer:add")
+            elif r < 0.5:
+                b.remove_observer(rng.choice(pool))
+                dist.add("observer:remove")
+            elif r < 0.75:
+                add_simple(b, rng)
+            elif r < 0.85:
+                b.rename(b"a", b"b", rng.choice([350, 550]))
+            else:
+                add_transfer(b, rng, dist, refuse_at=rng.choice([None, None, "setup", "cmd"]))
+        if rng.random() < 0.5:
+            b.disconnect(True)
+        out.append(b.scenario())
+    return out
+
+
+def fam_abor(rng, n, dist):
+    """cancelled transfers: the RFC-legal orders of the completion reply and the replies to ABOR"""
+    out = []
+    shapes = [("in-progress", dict(first=426, second=226), False), ("in-progress-225", dict(first=426, second=225), False),
+              ("already-complete", dict(first=226, second=None), True), ("abor-refused", dict(first=502, second=None), False),
+              ("abor-225-only", dict(first=225, second=None), False)]
+    for i in range(n):
+        name, ab, ff = shapes[i % len(shapes)]
+        b = S.Builder(rng, *rng.choice(ALL_METHODS), type=rng.choice("IIA"))
+        b.connect(login=(b"u", b"p"))
+        kind = rng.choice(["D", "U"])
+        nblocks = rng.choice([0, 1, 2]) if not ff else 1
+        cb = [False] * (1 + nblocks) + [True] * 8
+        if name == "already-complete":
+            # small payload: the peer has written everything and its 226 before it reads ABOR
+            b.transfer("D", b"small.bin", payload_segs=[b"x" * 8192, b"y" * 100], cb=cb, abor=ab, finish_first=True)
+        elif name == "abor-refused":
+            big = [bytes([65 + k % 26]) * 8192 for k in range(4)]
+            ci = b.transfer(kind, b"big.bin", payload_segs=big + [b"z" * 200000], chunks=big * 3, cb=cb, abor=ab)
+            if ci not in b.xfer_map:
+                continue
+            # the transfer's own completion reply follows when the client closes the data connection
+            si, ri = b.xfer_map[ci]
+            done = b.m(426, "aborted by close")
+            b.sessions[si]["reactions"][ri]["on_close"] = [done]
+            b.sessions[si]["reactions"][ri + 1]["drop_pending"] = False
+            b.sessions[si]["reactions"][ri + 1]["abort_data"] = False     # ABOR refused: the transfer goes on
+            b.sessions[si]["reactions"][ri + 1]["during_transfer"] = True
+            b.exp[ci]["replies"] = b.exp[ci]["replies"] + [done]
+        else:
+            big = [bytes([65 + k % 26]) * 8192 for k in range(4)]
+            b.transfer(kind, b"big.bin", payload_segs=big + [b"z" * 200000], chunks=big * 3, cb=cb, abor=ab)
+        b.simple(b"NOOP", None, 200)
+        b.simple(b"PWD", None, 257)
+        b.disconnect(True)
+        dist.add("abor:" + name)
+        out.append(b.scenario(abor_shape=name))
+    return out
+
+
+def fam_downloads(rng, n, dist, thorough=False):
+    out = []
+    sizes = [0, 1, 8191, 8192, 8193, 16383, 16384, 16385, 20000] + ([100000, 1 << 20] if thorough else [])
+    for i in range(n):
+        mode, rfc = ALL_METHODS[i % 4]
+        b = S.Builder(rng, mode, rfc, type="I", ip6=(i % 7 == 3))
+        b.connect(login=(b"u", b"p"))
+        for _ in range(rng.randrange(1, 4)):
+            size = rng.choice(sizes)
+            data = bytes(rng.randrange(256) for _ in range(min(size, 4096))) * (size // 4096 + 1)
+            data = data[:size]
+            style = rng.choice(["one", "tiny", "mss", "mixed", "trickle"])
+            segs, pos = [], 0
+            while pos < size:
+                k = {"one": size, "tiny": rng.choice([1, 2, 3]), "mss": 1460, "mixed": rng.choice([1, 100, 1460, 8192, 30000]),
+                     "trickle": rng.choice([100, 200, 300])}[style]
+                if style == "tiny" and pos > 64:
+                    k = size
+                segs.append(data[pos:pos + k])
+                pos += k
+            kind = rng.choice(["D", "D", "F"])
+            comp = rng.choice(["now", "after_data", "on_close"])
+            pace = rng.choice([None, None, 0.0005]) if style in ("trickle", "tiny") else None
+            ci = b.transfer(kind, b"f.bin" if kind == "D" else None, payload_segs=segs, completion=comp,
+                            cb=rng.choice([None, [False] * 300]) if kind == "D" else None, names=rng.random() < 0.5)
+            if pace and ci in b.xfer_map:
+                si, ri = b.xfer_map[ci]
+                b.sessions[si]["reactions"][ri]["data"]["pace_s"] = pace
+            dist.add("download:size-%d:%s:%s" % (size, style, comp))
+        b.disconnect(True)
+        out.append(b.scenario())
+    return out
+
+
+def fam_uploads(rng, n, dist, thorough=False):
+    out = []
+    sizes = [0, 1, 8191, 8192, 8193, 16383, 16384, 16385, 20000] + ([100000, 1 << 20] if thorough else [])
+    for i in range(n):
+        mode, rfc = ALL_METHODS[i % 4]
+        b = S.Builder(rng, mode, rfc, type="I", ip6=(i % 7 == 3))
+        b.connect(login=(b"u", b"p"))
+        for _ in range(rng.randrange(1, 4)):
+            size = rng.choice(sizes)
+            data = (bytes(rng.randrange(256) for _ in range(min(size, 4096))) * (size // 4096 + 1))[:size]
+            style = rng.choice(["full", "one-byte", "asked-1", "half", "7000", "random"])
+            chunks, pos = [], 0
+            while pos < size:
+                k = {"full": 8192, "one-byte": 1, "asked-1": 8191, "half": 4096, "7000": 7000, "random": rng.randrange(1, 8193)}[style]
+                if style == "one-byte" and pos > 200:
+                    k = 8192
+                chunks.append(data[pos:pos + k])
+                pos += k
+            ci = b.transfer("U", b"up.bin", chunks=chunks, upverb=rng.choice("SUA"), cb=rng.choice([None, [False] * 300]))
+            if rng.random() < 0.3 and ci in b.xfer_map:
+                si, ri = b.xfer_map[ci]
+                b.sessions[si]["reactions"][ri]["data"]["read_pace_s"] = 0.001
+            dist.add("upload:size-%d:%s" % (size, style))
+        b.disconnect(True)
+        out.append(b.scenario())
+    return out
+
+
+def fam_refusals(rng, n, dist):
+    """every step at which the server can refuse x code x operation x method, interleaved with accepted operations"""
+    out = []
+    combos = [(m, k, at, c) for m in ALL_METHODS for k in ("D", "U", "F") for at in ("setup", "cmd") for c in S.NEG_CODES]
+    rng.shuffle(combos)
+    for i in range(n):
+        (mode, rfc), kind, at, code = combos[i % len(combos)]
+        b = S.Builder(rng, mode, rfc, type=rng.choice("IA"))
+        b.connect(login=(b"u", b"p"))
+        if rng.random() < 0.5:
+            add_transfer(b, rng, dist, kind=rng.choice(["D", "U", "F"]))
+        cb = rng.choice([None, [False] * 20, [True] * 5])
+        if kind == "U":
+            b.transfer("U", b"x", chunks=[b"data"], cb=cb, refuse_at=at, refuse_code=code, upverb=rng.choice("SUA"))
+        else:
+            b.transfer(kind, b"x", payload_segs=[b"data"], cb=cb if kind == "D" else None, refuse_at=at, refuse_code=code)
+        dist.add("refusal:%s:%s:%s%s:%d" % (kind, at, mode, "-rfc2428" if rfc else "", code))
+        add_simple(b, rng, 200)
+        add_transfer(b, rng, dist, kind=rng.choice(["D", "U", "F"]))
+        b.disconnect(True)
+        out.append(b.scenario())
+    return out
+
+
+def fam_cancel(rng, n, dist):
+    out = []
+    for i in range(n):
+        mode, rfc = ALL_METHODS[i % 4]
+        typ = "A" if i % 3 == 2 else "I"
+        b = S.Builder(rng, mode, rfc, type=typ)
+        b.connect(login=(b"u", b"p"))
+        kind = "D" if i % 2 == 0 else "U"
+        nblocks = rng.choice([0, 1, 2, 3])
+        at = rng.choice(["start", "block", "never"])
+        short = rng.random() < 0.5          # blocks shorter than 8192 (source / network)
+        blk = rng.choice([100, 3000, 8191]) if short else 8192
+        total = [bytes([65 + k % 26]) * blk for k in range(6)]
+        if at == "start":
+            cb = [True] * 8
+        elif at == "never":
+            cb = [False] * 50
+        else:
+            cb = [False] * (1 + nblocks) + [True] * 8
+        if at == "never":
+            b.transfer(kind, b"f", payload_segs=total, chunks=total, cb=cb)
+        else:
+            b.transfer(kind, b"f", payload_segs=total + [b"z" * 300000], chunks=total + [b"z" * 8192] * 2, cb=cb,
+                       abor=dict(first=426, second=226))
+        dist.add("cancel:%s:%s:at-%s:block-%d" % (kind, typ, at, blk))
+        b.simple(b"NOOP", None, 200)
+        b.disconnect(True)
+        out.append(b.scenario())
+    return out
+
+
+def fam_args(rng, n, dist):
+    """caller texts over the full byte range, among them CR / LF followed by a valid command"""
+    out = []
+    evil = [b"x\r\nDELE y", b"\n", b"\r", b"a\r", b"a\nb", b"\r\nQUIT\r\n", b"ok", b"", b"\x00\xff", b" ", b"a b c", b"x" * 300]
+    for i in range(n):
+        b = S.Builder(rng, *rng.choice(ALL_METHODS))
+        t1, t2 = rng.choice(evil), rng.choice(evil)
+        bad1, bad2 = (b"\r" in t1 or b"\n" in t1), (b"\r" in t2 or b"\n" in t2)
+        which = i % 7
+        if which == 0:
+            if bad1 or bad2:
+                b.new_session(P.reaction([b.m(220)]))
+                b.connected = False
+                b.add_call(("C", 0, (t1, t2)), throws=True, open_after=False, check_open=True)
+                out.append(b.scenario()); dist.add("args:connect-with-login:rejected"); continue
+            b.connect(login=(t1, t2))
+        else:
+            b.connect(login=None)
+        if which == 1:
+            if bad1 or bad2:
+                b.add_call(("L", t1, t2), throws=True)
+            else:
+                b.login(t1, t2)
+        elif which == 2:
+            if bad1 or bad2:
+                b.add_call(("N", t1, t2), throws=True)
+            else:
+                b.rename(t1, t2)
+        elif which == 3:
+            verb = rng.choice([b"CWD", b"DELE", b"MKD", b"RMD", b"SIZE", b"MDTM", b"STAT", b"HELP", b"SITE"])
+            if verb == b"SITE" and t1 == b"HELP":
+                t1 = b"HELP x"
+            if bad1:
+                b.add_call(("S", verb, t1), throws=True)
+            else:
+                b.simple(verb, t1, 250)
+        elif which in (4, 5):
+            kind = "D" if which == 4 else "U"
+            if bad1:
+                b.add_call(("D", t1, None, None) if kind == "D" else ("U", "S", t1, [b"q"], None), throws=True)
+            else:
+                b.transfer(kind, t1, payload_segs=[b"p"], chunks=[b"q"])
+        else:
+            if bad1:
+                b.add_call(("F", t1, False), throws=True)
+            else:
+                b.transfer("F", t1, payload_segs=[b"l\r\n"])
+        dist.add("args:kind-%d:%s" % (which, "rejected" if (bad1 or (which in (0, 1, 2) and bad2)) else "sent"))
+        b.simple(b"NOOP", None, 200)
+        b.disconnect(True)
+        out.append(b.scenario())
+    return out
+
+
+FAMILIES = dict(mixed=lambda rng, n, dist, th: gen_mixed(rng, "quick", dist, n), observers=lambda r, n, d, th: fam_observers(r, n, d),
+                abor=lambda r, n, d, th: fam_abor(r, n, d), downloads=fam_downloads, uploads=fam_uploads,
+                refusals=lambda r, n, d, th: fam_refusals(r, n, d), cancel=lambda r, n, d, th: fam_cancel(r, n, d),
+                args=lambda r, n, d, th: fam_args(r, n, d))
+
 # ---------------------------------------------------------------------------------------------- the checks
 PROPS = {
-    # id: (families, correspondence projections, oracles)
-    "C02": dict(proj=["out", "state", "wire"], oracles=["lockstep"]),
-    "C09": dict(proj=["out", "wire"], oracles=["commands"]),
-    "C10": dict(proj=["out", "state", "wire"], oracles=["commands", "state", "lockstep"]),
-    "C14": dict(proj=["out", "obs"], oracles=["observers"]),
-    "C03": dict(proj=["out", "io"], oracles=["transfers"]),
-    "C04": dict(proj=["out", "io", "wire"], oracles=["transfers"]),
-    "C07": dict(proj=["out", "io", "held", "wire"], oracles=["transfers", "sockets", "lockstep"]),
-    "C12": dict(proj=["out", "io", "wire"], oracles=["transfers", "commands"]),
-    "C17": dict(proj=["out", "held"], oracles=["sockets"]),
+    # id: families with their share of the scenario budget, correspondence projections, oracles
+    "C02": dict(fam=[("mixed", 5), ("abor", 2), ("refusals", 1)], proj=["out", "state", "wire"], oracles=["lockstep"]),
+    "C09": dict(fam=[("args", 4), ("mixed", 2)], proj=["out", "wire"], oracles=["commands"]),
+    "C10": dict(fam=[("mixed", 6), ("args", 1), ("refusals", 1)], proj=["out", "state", "wire"], oracles=["commands", "state"]),
+    "C14": dict(fam=[("observers", 5), ("mixed", 2)], proj=["out", "obs"], oracles=["observers"]),
+    "C03": dict(fam=[("downloads", 6), ("mixed", 1)], proj=["out", "io"], oracles=["transfers"]),
+    "C04": dict(fam=[("uploads", 6), ("mixed", 1)], proj=["out", "io", "wire"], oracles=["transfers"]),
+    "C07": dict(fam=[("refusals", 6), ("mixed", 1)], proj=["out", "io", "held", "wire"], oracles=["transfers", "sockets", "lockstep"]),
+    "C12": dict(fam=[("cancel", 5), ("mixed", 1), ("uploads", 1)], proj=["out", "io", "wire"], oracles=["transfers", "commands"]),
+    "C17": dict(fam=[("mixed", 3), ("refusals", 1), ("cancel", 1)], proj=["out", "held"], oracles=["sockets"]),
 }
 
 
 def generate(prop, rng, tier, dist):
-    n = 300 if tier == "thorough" else 60
-    scns = gen_mixed(rng, tier, dist, n)
+    total = 1200 if tier == "thorough" else 240
+    fams = PROPS[prop]["fam"]
+    wsum = sum(w for _, w in fams)
+    scns = []
+    for name, w in fams:
+        n = max(4, total * w // wsum)
+        scns += FAMILIES[name](rng, n, dist, tier == "thorough")
     return scns
 
 
@@ -539,8 +805,42 @@ def dump_scn(scn):
     return enc({k: scn[k] for k in ("cfg", "sessions", "calls", "xfer_map", "cfg_type_at")})
 
 
+def _dec(o):
+    if isinstance(o, dict):
+        if set(o) == {"hex"}:
+            return bytes.fromhex(o["hex"])
+        if set(o) == {"tuple"}:
+            return tuple(_dec(x) for x in o["tuple"])
+        return {k: _dec(v) for k, v in o.items()}
+    if isinstance(o, list):
+        return [_dec(x) for x in o]
+    return o
+
+
 def replay(prop, path):
-    print("replay of protocol scenarios: re-run the check with the seed recorded in", path)
     r = json.load(open(path))
-    print(json.dumps({k: r[k] for k in r if k not in ("scenario",)}, indent=1)[:3000])
-    return 1
+    if "scenario" not in r:
+        print("replay file names no concrete input:", json.dumps(r.get("no_longer_checks"))[:3000])
+        return 1
+    scn = _dec(r["scenario"])
+    scn["xfer_map"] = {int(k): tuple(v) for k, v in scn["xfer_map"].items()}
+    scn["cfg_type_at"] = {int(k): v for k, v in scn["cfg_type_at"].items()}
+    scn.setdefault("exp", [])
+    exe = registry.build_client("plain")
+    drv = vlib.ocaml_driver()
+    res = P.run_scenarios([scn], exe, drv, os.path.join(vlib.BUILD, "work", prop), "replay", nworkers=1)[0]
+    print("recorded: %s - %s" % (r.get("signature"), r.get("what")))
+    rc = 0
+    for ci, c in enumerate(scn["calls"]):
+        i = res["calls"][ci]["out"][:160] if ci < len(res["calls"]) else "(not reached)"
+        m = res["model"][ci]["out"][:160] if ci < len(res["model"]) else "(not reached)"
+        print("call %d %r" % (ci, c))
+        print("   implementation:", i)
+        print("   model:         ", m)
+        if canon_out(res["calls"][ci]["out"], scn, res) != res["model"][ci]["out"] if ci < min(len(res["calls"]), len(res["model"])) else True:
+            rc = 1
+    for log in res["peer"]:
+        print("peer received:", [l["line"] for l in log["lines"]])
+    if rc:
+        print("VIOLATION property=%s replay=%s" % (prop, path))
+    return rc
